@@ -66,6 +66,13 @@ def build_files(chk, wd, n_gen, n_corpus):
             '#, c-format, no-c-format, python-format, no-python-format, possible-c-format, possible-python-format, range: 1..2, range: 3..4, wrap, no-wrap\nmsgid "%d %s"\nmsgstr "%s %d"\n\n'
             'msgid "uc"\nmsgstr "\\a\\b\\v\\f\\177 x\xc2\x80\xc2\x81"\n').encode('latin-1')
     add('corpus/manysets.po', many, 'flags')
+    # language NAMES (not codes) in lists: ling.get_language_for_name collects the matching languages in a set — whatever it
+    # returns for several matches must not depend on the hash seed (seeded X4-a: set.pop() of several candidates)
+    for i, (field, value) in enumerate([('Language', 'Polish, German'), ('Language', 'German, Polish, French, Czech'), ('Language', 'Pashto, Pushto'),
+                                        ('Language', 'German; French'), ('X-Poedit-Language', 'Polish, German'), ('Language', 'Serbian, Croatian, Bosnian, Slovenian, Slovak'),
+                                        ('Language', 'English, French, German, Italian, Spanish, Portuguese, Dutch, Swedish')]):
+        add(f'corpus/langnames{i}.po', ('msgid ""\nmsgstr ""\n"Project-Id-Version: x 1\\n"\n"%s: %s\\n"\n"Content-Type: text/plain; charset=UTF-8\\n"\n\n'
+                                         'msgid "a"\nmsgstr "b"\n' % (field, value)).encode(), 'flags')
     # XML fragments (lib/xml.py draws a random entity name at import: repeated runs must agree)
     xml = ('msgid ""\nmsgstr ""\n"Content-Type: text/plain; charset=UTF-8\\n"\n\n#. type: Content of: <para>\nmsgid "<b>bold</b>"\nmsgstr "<b>fett</i>"\n\n'
            '#. type: Content of: <para><title>\nmsgid "a &amp; b"\nmsgstr "a & b <unclosed>"\n\n#. type: Content of: <x>\nmsgid "ok"\nmsgstr "<a b=c>"\n')
